@@ -489,8 +489,56 @@ def rule_X11(ctx, rule: str = "X11") -> None:
     ctx.floor(rule, "reference sites", n_sites, 3)
 
 
+def _name_keyed_tables(tree: ast.AST):
+    """(function, node) where a module-level dict is read or filled under a key built from the bare `__name__` / `__qualname__` of a
+    class: classes of the same name in different packages (a.y.Target, b.y.Target) collide in such a table"""
+    mod_dicts = {t.id for st in tree.body if isinstance(st, (ast.Assign, ast.AnnAssign)) and getattr(st, "value", None) is not None
+                 and (isinstance(st.value, ast.Dict) or (isinstance(st.value, ast.Call) and ast.unparse(st.value.func) in ("dict", "defaultdict", "WeakValueDictionary", "weakref.WeakValueDictionary")))
+                 for t in (st.targets if isinstance(st, ast.Assign) else [st.target]) if isinstance(t, ast.Name)}
+    out = []
+    for fn in ast.walk(tree):
+        if not isinstance(fn, (ast.FunctionDef, ast.AsyncFunctionDef)):
+            continue
+        named = {a.targets[0].id for a in ast.walk(fn) if isinstance(a, ast.Assign) and len(a.targets) == 1 and isinstance(a.targets[0], ast.Name)
+                 and any(isinstance(x, ast.Attribute) and x.attr in ("__name__", "__qualname__") for x in ast.walk(a.value))}
+
+        def by_name(e: ast.AST) -> bool:
+            return any(isinstance(x, ast.Attribute) and x.attr in ("__name__", "__qualname__") for x in ast.walk(e)) or (isinstance(e, ast.Name) and e.id in named)
+
+        for n in ast.walk(fn):
+            if isinstance(n, ast.Subscript) and isinstance(n.value, ast.Name) and n.value.id in mod_dicts and by_name(n.slice):
+                out.append((fn.name, n))
+            elif isinstance(n, ast.Call) and isinstance(n.func, ast.Attribute) and n.func.attr in ("get", "setdefault", "pop") and isinstance(n.func.value, ast.Name) \
+                    and n.func.value.id in mod_dicts and n.args and by_name(n.args[0]):
+                out.append((fn.name, n))
+    return out
+
+
+def rule_X12(ctx, rule: str = "X12") -> None:
+    """the class a reference resolves to is never found through a process-wide table keyed by a class's bare name: two packages
+    may both define `Target`, and whatever is cached for one (the synthetic Entry message of a map field) would be handed to the
+    other - a map in b.x then decodes its values into a.y.Target"""
+    import pathlib
+    from ..src import M_INIT, Module
+    ctl = pathlib.Path(__file__).resolve().parent.parent / "controls" / "name_keyed_class_cache.py"
+    cm = Module("controls/name_keyed_class_cache.py", ctl)
+    flagged = {f for f, _ in _name_keyed_tables(cm.tree)}
+    if flagged != {"entry_class_lossy"}:
+        raise AnalysisError(f"X12 positive control: expected exactly `entry_class_lossy` to be flagged, got {sorted(flagged)}")
+    mod = ctx.repo.mod(M_INIT)
+    hits = _name_keyed_tables(mod.tree)
+    ctx.count(len([n for n in ast.walk(mod.tree) if isinstance(n, (ast.FunctionDef, ast.AsyncFunctionDef))]))
+    if hits:
+        fname, node = hits[0]
+        ctx.refuted(rule, "runtime:no-class-table-keyed-by-bare-name", f"{fname}:{ast.unparse(node)[:50]}", mod.loc(node),
+                    f"{fname} looks classes up in a module-level table under a key built from `__name__` (`{ast.unparse(node)[:80]}`): classes with the same name in different packages share "
+                    "the entry, so the second package's map field gets the Entry class - and through it the value class - of the first", "a.x.Holder and b.x.Holder with map<string, Target> over a.y.Target / b.y.Target")
+    else:
+        ctx.proved(rule, "runtime:no-class-table-keyed-by-bare-name", mod.rel, "no module-level table is keyed by a class's bare name")
+
+
 def run(ctx) -> None:
-    for name, fn in (("X10", rule_X10), ("X9", rule_X9), ("X1", template.rule_X1), ("X2", rule_X2), ("X3", rule_X3), ("X4", rule_X4), ("X5", rule_X5), ("X6", rule_X6), ("X7", rule_X7), ("X8", rule_X8), ("X11", rule_X11)):
+    for name, fn in (("X10", rule_X10), ("X9", rule_X9), ("X1", template.rule_X1), ("X2", rule_X2), ("X3", rule_X3), ("X4", rule_X4), ("X5", rule_X5), ("X6", rule_X6), ("X7", rule_X7), ("X8", rule_X8), ("X11", rule_X11), ("X12", rule_X12)):
         ctx.rules_run.append(name)
         fn(ctx)
     from .c03 import rule_P7, rule_P13
